@@ -262,6 +262,42 @@ type c31Fixture struct {
 	Now     uint64
 	S, P, H []*c31Tx
 	BuildS  float64
+	spare   []*common.VersionedTransaction
+}
+
+// filler builds one more real transaction (storage output, padded extra) whose
+// accounted size (unsigned payload or signed envelope) is EXACTLY target, so
+// that a queue can put the accumulated size exactly on the threshold.
+func (f *c31Fixture) filler(target int, signed bool) (*c31Tx, error) {
+	if len(f.spare) == 0 {
+		return nil, fmt.Errorf("no spare deposit")
+	}
+	dep := f.spare[0]
+	f.spare = f.spare[1:]
+	extra := target - 400
+	for try := 0; try < 4 && extra > 0 && extra <= common.ExtraSizeStorageCapacity; try++ {
+		tx := common.NewTransactionV5(common.XINAssetId)
+		tx.AddInput(dep.PayloadHash(), 0)
+		tx.AddScriptOutput(c31Wallet(), common.NewThresholdScript(64), common.NewIntegerFromString("1"), fixc.Seed64(fmt.Sprintf("c31-filler-out-%d", target)))
+		tx.Extra = c31Pattern("c31-filler-extra", extra)
+		ver := fixc.SignAll(tx, f.M.Store, [][]*common.Address{c31Wallet()})
+		m := &c31Tx{Class: -1, Ver: ver, U: len(ver.PayloadMarshal()), E: len(ver.Marshal())}
+		size := m.U
+		if signed {
+			size = m.E
+		}
+		if size == target {
+			if err := ver.Validate(f.M.Store, f.Now, false); err != nil {
+				return nil, err
+			}
+			if ver.ValidatedSize() != m.U {
+				return nil, fmt.Errorf("validated size %d differs from payload size %d", ver.ValidatedSize(), m.U)
+			}
+			return m, nil
+		}
+		extra += target - size
+	}
+	return nil, fmt.Errorf("cannot pad a transaction to exactly %d bytes", target)
 }
 
 func c31Wallet() []*common.Address { a := fixc.Addr("c31-wallet"); return []*common.Address{&a} }
@@ -322,10 +358,11 @@ func c31NewFixture(c *verifmc.Check, nS, nP, nH int) *c31Fixture {
 		ver    *common.VersionedTransaction
 		amount string
 	}
-	deps := make([]*common.VersionedTransaction, nS+nP+nG)
+	const nX = 2 // spare deposits for the exact-threshold filler
+	deps := make([]*common.VersionedTransaction, nS+nP+nG+nX)
 	c.ParallelN(len(deps), "c31 deposits", func(_, i int) {
 		amount := "1"
-		if i >= nS+nP {
+		if i >= nS+nP && i < nS+nP+nG {
 			amount = common.NewIntegerFromString("0.005").Mul(c31HInputs * hOf(i-nS-nP)).String()
 		}
 		deps[i] = mcNet7.DepositXIN(fmt.Sprintf("c31-dep-%04d", i), amount, w, 1)
@@ -396,6 +433,7 @@ func c31NewFixture(c *verifmc.Check, nS, nP, nH int) *c31Fixture {
 	}
 	stage("fan-outs finalized")
 
+	f.spare = deps[nS+nP+nG:]
 	// 3. members
 	f.Now = clock.NowUnixNano()
 	storage64 := common.NewThresholdScript(64)
@@ -602,14 +640,16 @@ func (f *c31Fixture) runBatcher(queue []*c31Tx) (actions [][]crypto.Hash, ret in
 }
 
 // expected actions of the literal model for a concrete queue
-func c31Expect(queue []*c31Tx, acct [3]int) (actions [][]crypto.Hash, batch []*c31Tx) {
+func c31Expect(queue []*c31Tx, signed bool) (actions [][]crypto.Hash, batch []*c31Tx) {
 	var batchHashes []crypto.Hash
 	batchSize := 0
 	for i, m := range queue {
 		if i >= c31Retrieve {
 			break
 		}
-		batchSize += acct[m.Class]
+		if batchSize += m.U; signed {
+			batchSize += m.E - m.U
+		}
 		if batchSize < c31Max*2/3 {
 			batchHashes = append(batchHashes, m.Ver.PayloadHash())
 			batch = append(batch, m)
@@ -845,19 +885,13 @@ func TestMC_C31(t *testing.T) {
 	}
 	runs := map[string]*replayResult{}
 	// run executes one queue on the real batcher (once per distinct queue)
-	run := func(q []c31Run, why string) *replayResult {
-		name := c31Describe(q)
+	runQueue := func(name string, queue []*c31Tx, why string) *replayResult {
 		if r, ok := runs[name]; ok {
 			return r
 		}
-		queue, ok := f.expand(q)
-		if !ok {
-			c.Require(false, "trace %s needs more members than were built", name)
-			return nil
-		}
-		for _, r := range q {
-			if r.Class == c31H {
-				replayH += r.N
+		for _, m := range queue {
+			if m.Class == c31H {
+				replayH++
 			}
 		}
 		tr, cpu := time.Now(), c31CPU()
@@ -879,7 +913,16 @@ func TestMC_C31(t *testing.T) {
 		runs[name] = res
 		return res
 	}
+	run := func(q []c31Run, why string) *replayResult {
+		queue, ok := f.expand(q)
+		if !ok {
+			c.Require(false, "trace %s needs more members than were built", c31Describe(q))
+			return nil
+		}
+		return runQueue(c31Describe(q), queue, why)
+	}
 	var acct [3]int
+	mode := ""
 	var realOver []string
 	// realOracle sizes what the real batcher appended with the real builders
 	// (used when the accounting mirror does not describe the real batch)
@@ -899,18 +942,25 @@ func TestMC_C31(t *testing.T) {
 		}
 	}
 	// replay compares one model trace with the real batcher (once per distinct queue)
+	var replayQueue func(name string, queue []*c31Tx, why string)
 	replay := func(q []c31Run, why string) {
-		name := c31Describe(q)
+		if queue, ok := f.expand(q); ok {
+			replayQueue(c31Describe(q), queue, why)
+			return
+		}
+		c.Require(false, "trace %s needs more members than were built", c31Describe(q))
+	}
+	replayQueue = func(name string, queue []*c31Tx, why string) {
 		if replayed[name] {
 			return
 		}
-		res := run(q, why)
+		res := runQueue(name, queue, why)
 		if res == nil {
 			return
 		}
 		replayed[name] = true
 		c.AddTraces(1)
-		want, _ := c31Expect(res.queue, acct)
+		want, _ := c31Expect(res.queue, mode == "signed-envelope")
 		c.Outcome("replay:" + why)
 		if res.ret != min(len(res.queue), c31Retrieve) {
 			c.Violation("conformance:retrieved-count", fmt.Sprintf("trace %s: popAndProcessCacheQueue returned %d for %d queued", name, res.ret, len(res.queue)), map[string]any{"trace": name})
@@ -927,10 +977,10 @@ func TestMC_C31(t *testing.T) {
 	if probe == nil {
 		return
 	}
-	mode := ""
 	var modes []string
 	for name, a := range candidates {
-		want, _ := c31Expect(probe.queue, a)
+		want, _ := c31Expect(probe.queue, name == "signed-envelope")
+		_ = a
 		if c31SameActions(probe.actions, want) {
 			modes = append(modes, name)
 		}
@@ -1091,6 +1141,23 @@ func TestMC_C31(t *testing.T) {
 	replay([]c31Run{{c31P, kP + 1}, {c31S, 2}}, "after-boundary")
 	replay([]c31Run{{c31P, kP}, {c31S, 1}, {c31P, 1}, {c31S, 1}}, "boundary-rotation")
 	replay([]c31Run{{c31S, 2}, {c31P, kP}, {c31S, 1}, {c31P, 1}}, "boundary-rotation")
+	// accumulated size EXACTLY on the threshold: kP payload-heavy members and a
+	// filler padded to the byte; "below two thirds" is strict, so the filler and
+	// whatever follows are sent alone
+	if fill, err := f.filler(c31Max*2/3-kP*acct[c31P], mode == "signed-envelope"); err != nil {
+		c.Require(false, "exact-threshold filler: %v", err)
+	} else {
+		queue, _ := f.expand([]c31Run{{c31P, kP}})
+		queue = append(queue, fill, f.S[0])
+		replayQueue(fmt.Sprintf("P^%d F(=threshold) S^1", kP), queue, "exact-threshold")
+		queue2, _ := f.expand([]c31Run{{c31P, kP}})
+		if fill1, err := f.filler(c31Max*2/3-kP*acct[c31P]-1, mode == "signed-envelope"); err == nil {
+			queue2 = append(queue2, fill1, f.S[0])
+			replayQueue(fmt.Sprintf("P^%d F(=threshold-1) S^1", kP), queue2, "exact-threshold")
+		} else {
+			c.Require(false, "exact-threshold filler (one byte below): %v", err)
+		}
+	}
 	// the largest message of the whole model
 	replay(total.maxQ, "worst")
 	builders := [4]string{"bundle", "transaction-challenge", "full-challenge", "relay"}
@@ -1141,10 +1208,15 @@ func TestMC_C31(t *testing.T) {
 			for _, name := range names {
 				res := runs[name]
 				var comp [3]int
+				plainClasses := true
 				for _, m := range res.batch {
+					if m.Class < 0 {
+						plainClasses = false
+						continue
+					}
 					comp[m.Class]++
 				}
-				if comp != v.Batch || !replayed[name] {
+				if !plainClasses || comp != v.Batch || !replayed[name] {
 					continue
 				}
 				plain, relay, rp := c31RealSizes(f, res.batch)
